@@ -12,7 +12,8 @@ LEVEL = "exploration"
 TECHNIQUE = "statistical envelope monitor: distinct random keys are added incrementally to real sketches and query() is read at every point of a cardinality grid incl. the regime switch points; small n is judged by an occupancy (linear counting) bound, larger n by k*1.04/sqrt(m) with k = 9"
 RULE = ("case = (p, seed, key stream): n runs over a log grid from 0 to 40*2^p (16*2^p for p >= 13 in the quick tier) plus "
         "threshold[p]*{0.9,0.97,1,1.03,1.1} and 5m*{0.9,...,1.1}; each grid point is one envelope evaluation; non-trivial = the stream "
-        "went past the linear-counting regime; distinct = by (p, seed, stream)")
+        "went past the linear-counting regime; distinct = by (p, seed, stream); thorough tier: one p=16 stream of 5.6*10^8 distinct keys "
+        "(12-byte windows of random 40 MB strings through add_ngram), evaluated every 4*10^7")
 ASSUMPTIONS = ["keys are 8 random bytes each (distinct by construction); different seeds give independent hash functions",
                "k = 9: with the measured sd <= 1.11 of the normalised error a correct implementation fails a run with probability < 1e-9",
                "this is a sanity envelope (a wrong rank, table row or alpha moves the estimate by several percent); exact agreement with the estimator is C17"]
@@ -138,10 +139,35 @@ def run_case(case, ctx, mon):
     mon.nontrivial(len(regimes) >= 2)
 
 
+def run_huge(case, ctx, mon):
+    """Hundreds of millions of distinct keys in one p=16 sketch (thorough tier): the 12-byte windows of pseudo-random 40 MB strings
+    fed through add_ngram are distinct up to a collision probability of ~1e-12 for the whole stream."""
+    s = sk()
+    p, seed = case["p"], case["seed"]
+    m = 1 << p
+    h = s.HyperLogLog(p, seed)
+    rng = np.random.default_rng(case["stream"])
+    env = K * 1.04 / math.sqrt(m)
+    n = 0
+    for _ in range(case["chunks"]):
+        buf = rng.bytes(case["chunk_bytes"])
+        mon.api(h.add_ngram, buf, 12)
+        n += len(buf) - 11
+        q = float(h.query())
+        rel = abs(q - n) / n
+        mon.check(math.isfinite(q) and rel <= env, "relative-error<=k*1.04/sqrt(m)", relative_error=rel, envelope=env, p=p, seed=seed, n=n, estimate=q,
+                  regime="hundreds of millions of distinct keys")
+        mon.count("huge_cardinality_evaluations")
+    mon._extra["largest_cardinality_reached"] = max(mon._extra.get("largest_cardinality_reached", 0), n)
+    mon.nontrivial(True)
+
+
 def gen_cases(ctx):
     rng = ctx.rng("cases")
     q = ctx.quick
     rep = 0
+    if ctx.thorough and ctx.shard == ctx.nshards - 1:
+        yield {"huge": True, "p": 16, "seed": int(rng.integers(0, 2**63)), "stream": int(rng.integers(0, 2**62)), "chunks": 14, "chunk_bytes": 40_000_000}
     while True:
         for p in range(7, 17):
             yield {"p": p, "seed": int(rng.integers(0, 2**63)) * 2 + 1, "stream": int(rng.integers(0, 2**62)), "top_mult": 6.5, "dense": True}
@@ -160,12 +186,16 @@ def gen_cases(ctx):
             return
 
 
+def run_any(case, ctx, mon):
+    (run_huge if case.get("huge") else run_case)(case, ctx, mon)
+
+
 def run(ctx, mon):
-    run_cases(ctx, mon, gen_cases(ctx), run_case)
+    run_cases(ctx, mon, gen_cases(ctx), run_any)
 
 
 def replay(case, ctx, mon):
-    run_case(case, ctx, mon)
+    run_any(case, ctx, mon)
 
 
 def floors(mon, ctx):
@@ -175,3 +205,5 @@ def floors(mon, ctx):
     mon.floor("envelope evaluations", mon.counters["envelope_evaluations"], 1000)
     mon.floor("small-n evaluations", mon.counters["small_n_evaluations"], 50)
     mon.floor("dense streams (one per precision)", mon.counters["dense_streams"], 10)
+    if ctx.thorough:
+        mon.floor("evaluations beyond 10^8 distinct keys", mon.counters["huge_cardinality_evaluations"], 10)
